@@ -643,6 +643,140 @@ fn representative() -> Vec<Fault> {
     ]
 }
 
+
+// ------------------------------------------------------------------ TLS fault slice
+
+/// Faults against a TLS server: garbage / plain HTTP on the TLS port, every truncation of the
+/// ClientHello, stalled handshakes left open, handshake then broken requests. After every fault
+/// a complete TLS handshake + GET /health on a fresh connection must succeed.
+fn tls_faults(ctx: &Ctx, cn: &Cn, samples: &Samples) -> Value {
+    let id = vh::tls::self_signed();
+    let ccfg = id.client_config();
+    let mut n_faults = 0u64;
+    let mut n_probes = 0u64;
+    for mode in [HandlerTaskMode::Detached, HandlerTaskMode::CancelOnDisconnect] {
+        let mk = || LiveServer::start(api(), (), ServerOpts { mode, default_body_max: 4096, tls: Some(id.server_config()), ..Default::default() }).unwrap_or_else(|e| machinery_failure(&e));
+        let mut srv = mk();
+        // the client's first flight, as rustls would send it
+        let hello: Vec<u8> = {
+            let name = rustls::pki_types::ServerName::try_from("localhost").unwrap();
+            let mut c = rustls::ClientConnection::new(ccfg.clone(), name).unwrap();
+            let mut out = vec![];
+            while c.wants_write() {
+                c.write_tls(&mut out).unwrap();
+            }
+            out
+        };
+        let mut faults: Vec<(String, Vec<u8>, End)> = vec![
+            ("tls/nothing".into(), vec![], End::Close),
+            ("tls/nothing_reset".into(), vec![], End::Reset),
+            ("tls/plain_http_on_tls_port".into(), b"GET /health HTTP/1.1\r\nhost: h\r\n\r\n".to_vec(), End::ReadThenClose),
+            ("tls/zeros".into(), vec![0u8; 4096], End::ReadThenClose),
+            ("tls/ff".into(), vec![0xffu8; 4096], End::ReadThenClose),
+            ("tls/record_header_huge_length".into(), vec![0x16, 0x03, 0x01, 0xff, 0xff, 0x01], End::ReadThenClose),
+            ("tls/hello_twice".into(), [hello.clone(), hello.clone()].concat(), End::ReadThenClose),
+            ("tls/hello_then_garbage".into(), [hello.clone(), vec![0x17, 0x03, 0x03, 0x00, 0x10], vec![0xaa; 16]].concat(), End::ReadThenClose),
+        ];
+        for cut in 0..hello.len() {
+            if cut % 7 == 0 || cut < 12 || cut + 3 >= hello.len() {
+                faults.push(("tls/hello_truncated+close".into(), hello[..cut].to_vec(), End::Close));
+                faults.push(("tls/hello_truncated+reset".into(), hello[..cut].to_vec(), End::Reset));
+            }
+            if cut % 23 == 0 {
+                faults.push(("tls/hello_truncated_left_open".into(), hello[..cut].to_vec(), End::LeaveOpen));
+            }
+        }
+        for i in (0..hello.len()).step_by(5) {
+            let mut m = hello.clone();
+            m[i] ^= 0xff;
+            faults.push(("tls/hello_byte_flipped".into(), m, End::ReadThenClose));
+        }
+        let mut open: Vec<Conn> = vec![];
+        for (class, bytes, end) in &faults {
+            n_faults += 1;
+            cn.faults.fetch_add(1, Ordering::Relaxed);
+            *cn.classes.lock().unwrap().entry(class.clone()).or_insert(0) += 1;
+            let case = json!({"kind":"fault_sequence","mode": format!("{mode:?}"), "transport": "tls", "faults": [{"class": class, "bytes_hex": hex(&bytes[..bytes.len().min(300)]), "bytes_len": bytes.len(), "end": format!("{end:?}"), "burst": 0}]});
+            if let Ok(mut c) = Conn::connect(srv.addr) {
+                let _ = c.send(bytes);
+                match end {
+                    End::Close => drop(c),
+                    End::Reset => {
+                        c.reset_on_close();
+                        drop(c)
+                    }
+                    End::LeaveOpen => open.push(c),
+                    _ => {
+                        // whatever comes back is TLS (alerts) or nothing: only liveness is judged here
+                        c.stream.set_read_timeout(Some(Duration::from_millis(60))).ok();
+                        let mut tmp = [0u8; 4096];
+                        use std::io::Read;
+                        let _ = c.stream.read(&mut tmp);
+                        c.reset_on_close();
+                        drop(c);
+                    }
+                }
+            }
+            // probe: full handshake + request on a fresh TLS connection
+            n_probes += 1;
+            cn.probes.fetch_add(1, Ordering::Relaxed);
+            let ok = match vh::tls::TlsConn::connect(srv.addr, &ccfg) {
+                Err(_) => false,
+                Ok(mut t) => t.handshake(POS).is_ok() && matches!(t.roundtrip(&get("/health", ""), POS), Ok(r) if r.status == 200),
+            };
+            if !ok {
+                ctx.report(Violation {
+                    sig: json!({"kind":"server_down_or_wedged","after": class, "transport": "tls"}),
+                    case,
+                    expected: json!("TLS handshake + 200 from GET /health on a fresh connection"),
+                    observed: json!("probe failed"),
+                });
+                cn.restarts.fetch_add(1, Ordering::Relaxed);
+                open.clear();
+                srv = mk();
+            }
+        }
+        // requests over an established TLS session, then broken off
+        for (name, b) in bases() {
+            if name == "websocket" {
+                continue;
+            }
+            for cut in [b.len() / 3, b.len() - 1, b.len()] {
+                n_faults += 1;
+                cn.faults.fetch_add(1, Ordering::Relaxed);
+                if let Ok(mut t) = vh::tls::TlsConn::connect(srv.addr, &ccfg) {
+                    if t.handshake(POS).is_ok() {
+                        let r = if cut == b.len() { t.roundtrip(&b, Duration::from_secs(3)).map(|r| r.status).ok() } else {
+                            use std::io::Write;
+                            let mut s = rustls::Stream::new(&mut t.tls, &mut t.tcp);
+                            let _ = s.write_all(&b[..cut]);
+                            None
+                        };
+                        samples.offer(|| json!({"tls_request": name, "bytes_sent": cut, "status": r}));
+                    }
+                }
+                n_probes += 1;
+                cn.probes.fetch_add(1, Ordering::Relaxed);
+                let ok = match vh::tls::TlsConn::connect(srv.addr, &ccfg) {
+                    Err(_) => false,
+                    Ok(mut t) => t.handshake(POS).is_ok() && matches!(t.roundtrip(&get("/health", ""), POS), Ok(r) if r.status == 200),
+                };
+                if !ok {
+                    ctx.report(Violation {
+                        sig: json!({"kind":"server_down_or_wedged","after": format!("tls/{name}/cut"), "transport": "tls"}),
+                        case: json!({"kind":"fault_sequence","mode": format!("{mode:?}"), "transport": "tls", "faults": [{"class": format!("tls/{name}"), "bytes_hex": hex(&b[..cut]), "bytes_len": cut, "end": "Close", "burst": 0}]}),
+                        expected: json!("TLS handshake + 200 from GET /health on a fresh connection"),
+                        observed: json!("probe failed"),
+                    });
+                    srv = mk();
+                }
+            }
+        }
+        drop(open);
+    }
+    json!({"tls_faults": n_faults, "tls_probes": n_probes})
+}
+
 fn main() {
     let args = parse_args();
     quiet_panics();
@@ -751,7 +885,9 @@ fn main() {
         caps.push(format!("sequences: wall budget hit after {} of {total}", done.load(Ordering::Relaxed)));
     }
 
+    let tls = tls_faults(&ctx, &cn, &samples);
     let cov = json!({
+        "tls_slice": tls,
         "evaluations": cn.faults.load(Ordering::Relaxed),
         "distinct_nontrivial": cn.malformed_classified.load(Ordering::Relaxed) + cn.wellformed_classified.load(Ordering::Relaxed),
         "rule": "single faults: for 7 base requests every truncation point x {close, reset, half-close-and-read}, every single-byte substitution with {00,0A,0D,20,3A,7F,80,FF}, every single-byte deletion; every C0/DEL/obs-text byte in a header value and name; size / content-length / chunk-size / HTTP-2-preface / method-form faults; connect-reset bursts; each in both task modes with a health probe on a fresh connection after each. sequences: every sequence of `depth` faults over a 24-element representative set (incl. faults left open), fresh server per sequence, probe after every event. Oracle: probe answers 200; all bytes received on the faulty connection parse as complete valid HTTP/1.1 responses (HTTP/2 frames after the h2 preface; nothing judged after a 101); if the conservative classifier says the first request is definitely malformed, the first response has status >= 400. distinct_nontrivial = faults whose first request the classifier could place (malformed or well-formed); evaluations = faults applied.",
